@@ -821,7 +821,7 @@ def check_ld_hierarchical(run, repo):
     run.floor('hierarchical attribute updates in the LD walk', n, 1)
 
 
-def check_ld_walk(run, repo, sizes):
+def check_ld_walk(run, repo, sizes, regime='pl1'):
     """C15-W  long-descriptor stage-1 walk (PL1&0 regime), interpreted whole - base selection, the level loop (unrolled),
     and the result record - once per (T0SZ, T1SZ) pair, the pair fixed through the path condition so that every slice position
     is a constant; input address, TTBR0/TTBR1, EPD0/EPD1, security state and up to three 64-bit descriptors stay symbolic.
@@ -843,10 +843,20 @@ def check_ld_walk(run, repo, sizes):
         s2 = m.sym('ARG.s2fs1walk', 1)
         tt0 = m.reg_attr('ttbr0_64', 64)
         tt1 = m.reg_attr('ttbr1_64', 64)
-        dom = B.all_and([it.i_eq(Int(ttbcr.bits[0:3]), it.const(t0)), it.i_eq(Int(ttbcr.bits[16:19]), it.const(t1)),
-                         B.NOT(rm.cfg('have_virt_ext')), rm.valid_state(), B.NOT(sctlr.bits[25]), decode.arch_constraint(it)])
+        hyp = regime == 'hyp'
+        if hyp:
+            # Hyp regime: HTTBR / HTCR.T0SZ only, never secure, descriptor fetch endianness from HSCTLR.EE
+            htcr = rm.view('htcr')
+            hsctlr = rm.view('hsctlr')
+            tt0 = m.reg_attr('httbr', 64)
+            dom = B.all_and([it.i_eq(Int(htcr.bits[0:3]), it.const(t0)), rm.cfg('have_virt_ext'), rm.cfg('have_security_ext'),
+                             rm.mode_is(rm.cpsr(), 'hyp'), rm.vbit('scr', 0), B.NOT(hsctlr.bits[25]), decode.arch_constraint(it)])
+            label = 'Hyp regime, HTCR.T0SZ=%d' % t0
+        else:
+            dom = B.all_and([it.i_eq(Int(ttbcr.bits[0:3]), it.const(t0)), it.i_eq(Int(ttbcr.bits[16:19]), it.const(t1)),
+                             B.NOT(rm.cfg('have_virt_ext')), rm.valid_state(), B.NOT(sctlr.bits[25]), decode.arch_constraint(it)])
+            label = 'T0SZ=%d T1SZ=%d' % (t0, t1)
         res, _ = m.run('ArmV6', 'translation_table_walk_ld', [ia, ia, wr, it.const(1), s2, it.const(4)], cond=dom)
-        label = 'T0SZ=%d T1SZ=%d' % (t0, t1)
         ok = True
 
         def bad(construct, msg, wit=None, _label=label):
@@ -857,16 +867,18 @@ def check_ld_walk(run, repo, sizes):
                            if wit not in (None, 0) else None})
         cat = lambda *parts: Int([b for p in parts for b in p])
         zeros = lambda n: [0] * n
-        secure = rm.is_secure(rm.cpsr())
+        secure = 0 if hyp else rm.is_secure(rm.cpsr())
         # ---- reference: base selection ----------------------------------------------------------
         top0 = B.all_and([B.NOT(b) for b in ia.bits[32 - t0:32]]) if t0 else 1
         use0 = 1 if t0 == 0 else top0
-        if t1 == 0:
+        if hyp:
+            use1 = 0
+        elif t1 == 0:
             use1 = B.NOT(use0)
         else:
             use1 = B.all_and(list(ia.bits[32 - t1:32]))
         found = B.OR(use0, use1)
-        epd = B.ite(use1, ttbcr.bits[23], ttbcr.bits[7])
+        epd = 0 if hyp else B.ite(use1, ttbcr.bits[23], ttbcr.bits[7])
 
         def start(tsz, ttbr):
             lvl = 1 if tsz < 2 else 2
@@ -876,7 +888,7 @@ def check_ld_walk(run, repo, sizes):
             sel = cat(zeros(3), ia.bits[lo:32 - tsz])
             return lvl, Int(it.ext(it.i_bitop('or', base, sel), 40))
         l0, a0 = start(t0, tt0)
-        l1, a1 = start(t1, tt1)
+        l1, a1 = start(t1 if not hyp else t0, tt1)
         nofault0 = B.AND(found, B.NOT(epd))
         # the two start levels may differ: build per-selection references and merge with ite(use1, ...)
         refs = {}
@@ -939,7 +951,8 @@ def check_ld_walk(run, repo, sizes):
                         r = specmod.diff_values(it, reg, a[3], V(it.const(L)), 'level')
                         if r is not None:
                             bad('%s fault level' % kind.lower(), 'the fault is reported for the wrong lookup level: %s' % r[0], r[1])
-                for idx, what, want in ((0, 'faulting address', V(ia)), (9, 'LDFSR format', None), (7, 'second-stage flag', None)):
+                for idx, what, want in ((0, 'faulting address', V(ia)), (9, 'LDFSR format', None), (7, 'second-stage flag', None),
+                                        (6, 'taken-to-Hyp flag', None)):
                     nob += 1
                     if want is not None:
                         r = specmod.diff_values(it, cc, a[idx], want, what)
@@ -950,10 +963,10 @@ def check_ld_walk(run, repo, sizes):
                             tv = it.truth(a[idx], cc)
                         except Exception:
                             tv = None
-                        exp = 1 if idx == 9 else 0
+                        exp = 1 if idx == 9 or (idx == 6 and hyp) else 0
                         if tv is None or B.AND(cc, B.XOR(tv, exp)) != 0:
                             bad('%s fault %s' % (kind.lower(), what), 'a stage-1 long-descriptor fault must be reported in the '
-                                'LPAE format and as a first-stage abort')
+                                'LPAE format, as a first-stage abort, and taken to Hyp mode exactly in the Hyp regime')
             want_all = B.all_or(ref.values())
             nob += 1
             dd = B.AND(dom, B.XOR(got_all, want_all))
@@ -1059,6 +1072,7 @@ def main(repo_path, tier, seed, replay=None):
     LD_QUICK = ((0, 0), (1, 0), (0, 1), (2, 3), (7, 7), (0, 5), (4, 1))
     LD_ALL = tuple((a, b) for a in range(8) for b in range(8))
     check_ld_walk(run, repo, LD_ALL if tier == 'thorough' else LD_QUICK)
+    check_ld_walk(run, repo, tuple((a, 0) for a in range(8)) if tier == 'thorough' else ((0, 0), (1, 0), (2, 0), (6, 0)), regime='hyp')
     # positive control for the long-descriptor rule: the level-2 block output slice moved by a bit (in memory)
     fl = repo.method('ArmV6', 'translation_table_walk_ld')
     srcl = fl.module.source
@@ -1091,7 +1105,7 @@ def main(repo_path, tier, seed, replay=None):
         what = 'section base slice l1desc[31:20] -> [31:21]'
     run.control('C15-S descriptor slice moved', fired, what)
     run.exhaustive = True
-    run.undecided = ['long-descriptor walk: Hyp-mode (HTTBR) and stage-2 (VTTBR) regimes, and the walk-attribute fields of the descriptor fetch (IRGN/ORGN/SH); the stage-1 PL1&0 walk is decided by C15-W',
+    run.undecided = ['long-descriptor walk: the stage-2 (VTTBR) regime and the walk-attribute fields of the descriptor fetch (IRGN/ORGN/SH); the stage-1 PL1&0 and Hyp walks are decided by C15-W',
                      'memory attribute decoding (TEX remap / MAIR) beyond the bits handed to it', 'stage-2 translation',
                      'big-endian (SCTLR.EE) descriptor fetch is compared in the EE = 0 world only']
     run.assumptions = ['reference: TranslationTableWalkSD, CheckDomain, EncodeSDFSR/LDFSR, DataAbort, FCSETranslate, '
